@@ -46,7 +46,7 @@ func init() {
 	common := []string{
 		"errgroup and context are simulator re-implementations (conformance-tested against x/sync v0.19.0 and package context by vc selftest)",
 		"programs whose generated file does not compile, or that the generator rejects, are skipped and counted (C04/C09 are not claimed by this engine)",
-		"sampling over programs (<= 12 function providers, <= 4 injectors per package) and schedules; not a proof",
+		"sampling over programs (mostly <= 12 function providers, some with 20-40 providers, 17-24 parallel services or a constructor of 64+ parameters; <= 6 injectors per package) and schedules; not a proof",
 	}
 	for k, c := range cfgs {
 		c.level = "exploration"
